@@ -1323,6 +1323,48 @@ fn run_case(c: &Sexp, mask: u8) -> Sexp {
                 }
             }
             9 => silent_node(&hs, a as usize, op.at(2).num()),
+            12 => {
+                // (12 g r s v): a second thread holds a read guard of ArcMemo g (`read_untracked()`)
+                // while a third thread reads ArcMemo r (g itself, or a memo over g); the read may
+                // wait for the guard, but what it returns is the current value.  Bodies that run
+                // on those threads log into their own (discarded) trace.
+                let r = op.at(2).num();
+                let (mg, mr) = match (&hs[a as usize], &hs[r as usize]) {
+                    (Handle::ArcMemo(g), Handle::ArcMemo(r)) => (g.clone(), r.clone()),
+                    _ => panic!("case: (12 g r) wants two ArcMemos"),
+                };
+                let (tx_ready, rx_ready) = mpsc::channel::<()>();
+                let (tx_release, rx_release) = mpsc::channel::<()>();
+                let holder = std::thread::spawn(move || {
+                    let guard = mg.read_untracked();
+                    let _ = tx_ready.send(());
+                    let _ = rx_release.recv_timeout(Duration::from_secs(3));
+                    drop(guard);
+                });
+                rx_ready.recv_timeout(Duration::from_secs(3)).expect("the guard holder did not start");
+                // the write lands while the guard is alive: (12 g r s v)
+                write_node(&hs, op.at(3).num() as usize, op.at(4).num());
+                let (tx_val, rx_val) = mpsc::channel::<i64>();
+                std::thread::spawn(move || {
+                    let _ = tx_val.send(mr.get_untracked());
+                });
+                // either the read comes back at once (nothing to recompute) or it waits for the guard
+                let v = match rx_val.recv_timeout(Duration::from_millis(150)) {
+                    Ok(v) => {
+                        let _ = tx_release.send(());
+                        v
+                    }
+                    Err(_) => {
+                        let _ = tx_release.send(());
+                        rx_val
+                            .recv_timeout(Duration::from_secs(3))
+                            .expect("the cross-thread read did not return after the guard was dropped")
+                    }
+                };
+                let _ = holder.join();
+                ev(2, vec![-1, r, v, 0]);
+                ev(0, vec![r, v]);
+            }
             10 => {
                 // an effect (template k) is created NOW under the owner of effect `a`
                 let k = op.at(2).num() as usize;
